@@ -33,9 +33,10 @@ CHUNK = 32
 
 # every alphabet contains translates with bitwise identical side lengths directly after their originals (same scheme object,
 # same sizes, other origin: anything a scheme remembers about 'the box' must depend on the origin too)
-I1D = [(0.0, 1.0), (5.0, 6.0), (2.0, 5.0), (-7.0, -4.0), (-1.0, 3.0), (10.0, 10.5), (0.0, 1e-4), (0.0, 1e3), (-2.0, -2.0 + 1e-4), (100.0, 1100.0)]
+I1D = [(0.0, 1.0), (5.0, 6.0), (2.0, 5.0), (-7.0, -4.0), (-1.0, 3.0), (10.0, 10.5), (0.0, 1e-4), (0.0, 1e3), (-2.0, -2.0 + 1e-4), (100.0, 1100.0),
+       (100.0, 100.0 + 1e-4), (-1e3, -1e3 + 5e-3), (50.0, 50.0 + 1e-4)]  # short and far from the origin (relative closeness of the end points is not emptiness)
 BOX2 = [(0.0, 1.0, 0.0, 1.0), (3.0, 4.0, -2.0, -1.0), (2.0, 5.0, -1.0, 3.0), (-4.0, -1.0, 6.0, 10.0), (-1.0, 3.0, 10.0, 10.5), (0.0, 1e-4, 0.0, 1e-4), (0.0, 1e3, 0.0, 1e3),
-        (-2.0, -2.0 + 1e-4, 100.0, 1100.0)]
+        (-2.0, -2.0 + 1e-4, 100.0, 1100.0), (100.0, 100.0 + 1e-4, -1e3, -1e3 + 5e-3)]
 SQ2 = [(a, b, a, b) for a, b in I1D]
 BOX3 = [(0.0, 1.0, 0.0, 1.0, 0.0, 1.0), (1.0, 2.0, -3.0, -2.0, 4.0, 5.0), (2.0, 5.0, -1.0, 3.0, 10.0, 10.5), (3.0, 6.0, 0.0, 4.0, 20.0, 20.5), (0.0, 1e-4, 0.0, 1e-4, 0.0, 1e-4),
         (0.0, 1e3, 0.0, 1e3, 0.0, 1e3), (-2.0, -2.0 + 1e-4, 100.0, 1100.0, 0.0, 1e-4)]
@@ -46,7 +47,7 @@ WORDS3 = [''] + list('xyz') + [a + b for a in 'xyz' for b in 'xyz'] + ['xyz']
 # thorough: every word of length <= 3, and three more boxes / intervals (small side at a large offset, negative large side)
 WORDS2_T = [''.join(w) for n in range(4) for w in itertools.product('xy', repeat=n)]
 WORDS3_T = [''.join(w) for n in range(4) for w in itertools.product('xyz', repeat=n)]
-I1D_T = I1D + [(-1e3, 0.0), (100.0, 100.0 + 1e-4)]
+I1D_T = I1D + [(-1e3, 0.0), (1e3, 1e3 + 5e-3), (-50.0, -50.0 + 1e-4)]
 BOX2_T = BOX2 + [(100.0, 100.0 + 1e-4, -1e3, 0.0)]
 SQ2_T = [(a, b, a, b) for a, b in I1D_T]
 BOX3_T = BOX3 + [(100.0, 100.0 + 1e-4, -1e3, 0.0, 0.5, 1.5)]
